@@ -69,7 +69,9 @@ def run(tier, seed, replay):
     must_fail = []
     for k in range(ncase):
         tr = rng.choice(F.DISPLAY_TRAITS[:-1] + ["Display"] * 4)
-        c = R.gen_enum_case(rng, k, tr)
+        # with the caller's flags too: a wrapping enum-level format (a bare `_variant` placeholder of a non-Display derive
+        # included, in each of its spellings) is an interpolation, so flags must leave every variant's output unchanged
+        c = R.gen_enum_case(rng, k, tr, with_flags=2 if rng.random() < 0.6 else False)
         derive_of[k] = tr
         enum_of[k] = True
         chk.bump("rt:mode:" + c.meta["mode"])
@@ -97,6 +99,14 @@ def run(tier, seed, replay):
         for c in cases:
             for (tag, eq, d, r) in out.get(c.k, []):
                 if tag.startswith("flags-"):
+                    nobs += 1
+                    chk.count(("rt", c.decl, tag), True)
+                    chk.bump("rt:flags:" + c.meta["mode"])
+                    if not eq:
+                        chk.violation("shared-format-flags",
+                                      {"decl": c.decl, "obs": tag, "derived": d, "expected": r, "meta": c.meta},
+                                      "enum-level format (%s) under caller's flags %s: %s prints %s, documented meaning gives %s" % (
+                                          c.meta["mode"], tag, c.decl, d, r))
                     continue
                 nobs += 1
                 chk.count(("rt", c.decl, tag), True)
